@@ -64,7 +64,7 @@ Twice == <<<<>>, <<>>>>
 Init ==
   \/ \E k1 \in 1..NK, sh \in {"nest2", "seq2"} : row = [k |-> "f0", k1 |-> k1, sh |-> sh, done |-> FALSE]
   \/ \E t \in 1..18 : row = [k |-> "s0", t |-> t, done |-> FALSE]
-  \/ \E sh \in 1..14 : row = [k |-> "a0", sh |-> sh, done |-> FALSE]
+  \/ \E sh \in 1..Alias!NShapes : row = [k |-> "a0", sh |-> sh, done |-> FALSE]
   \/ \E k1 \in 1..NK : row = [k |-> "o0", k1 |-> k1, done |-> FALSE]
   \/ \E sc \in 1..2, m1 \in 0..9 : row = [k |-> "h0", sc |-> sc, m1 |-> m1, done |-> FALSE]
   \/ \E a \in 1..Det!NK : row = [k |-> "d0", a |-> a, done |-> FALSE]
@@ -90,7 +90,7 @@ Next ==
         /\ \E s \in 1..Len(Alias!Sources), m \in 1..Len(Alias!Muts) :
              /\ (Tier = "thorough" \/ (row.sh + s + m + Seed - 1) % 3 = 0)
              /\ row' = MkRow("alias", Alias!Shape(row.sh, Alias!Sources[s], Alias!Muts[m]),
-                             IF row.sh = 7 THEN <<<<<<"F1", Alias!Sources[s]>>>>, <<<<"F1", Alias!Sources[s]>>>>>> ELSE Twice)
+                             IF row.sh \in {7, 15, 16} THEN <<<<<<"F1", Alias!Sources[s]>>>>, <<<<"F1", Alias!Sources[s]>>>>>> ELSE Twice)
      \/ \* the fault scripts of MC_History: run-time errors inside functions and loops, early returns (the
         \* mode "a run that never ends" is left out: both sides only run out of fuel)
         /\ row.k = "h0"
